@@ -76,6 +76,7 @@ def build(build="default", quiet=True):
 
 
 def build_all():
+    build_shim()
     for b in ("default", "plain", "raw", "sync", "both"):
         build(b, quiet=False)
     import miri_engine
@@ -404,17 +405,17 @@ def shim_env():
 
 SIM_CHECKS = {
     # property: list of dict(engine, quick runs, thorough runs, build, shim)
-    "C01": [dict(engine="c01", quick=30000, thorough=500000, build="default", shim=True)],
-    "C02": [dict(engine="c02", quick=24000, thorough=400000, build="default")],
-    "C03": [dict(engine="c03", quick=24000, thorough=400000, build="default")],
+    "C01": [dict(engine="c01", quick=200000, thorough=3000000, build="default", shim=True)],
+    "C02": [dict(engine="c02", quick=200000, thorough=3000000, build="default")],
+    "C03": [dict(engine="c03", quick=400000, thorough=6000000, build="default")],
     "C05": [
-        dict(engine="c05r", quick=20000, thorough=300000, build="default", rlimit_as=4 << 30, chunk_timeout=120),
-        dict(engine="c05r", quick=20000, thorough=300000, build="plain", rlimit_as=4 << 30, chunk_timeout=120),
-        dict(engine="c05a", quick=60000, thorough=1200000, build="plain", rlimit_as=4 << 30, chunk_timeout=120),
+        dict(engine="c05r", quick=60000, thorough=600000, build="default", rlimit_as=4 << 30, chunk_timeout=120),
+        dict(engine="c05r", quick=60000, thorough=600000, build="plain", rlimit_as=4 << 30, chunk_timeout=120),
+        dict(engine="c05a", quick=180000, thorough=2400000, build="plain", rlimit_as=4 << 30, chunk_timeout=120),
     ],
-    "C06": [dict(engine="c06", quick=60000, thorough=1500000, build="default")],
-    "C15": [dict(engine="c15", quick=40000, thorough=600000, build="default")],
-    "C18": [dict(engine="c18", quick=30000, thorough=500000, build="default")],
+    "C06": [dict(engine="c06", quick=250000, thorough=4000000, build="default")],
+    "C15": [dict(engine="c15", quick=400000, thorough=6000000, build="default")],
+    "C18": [dict(engine="c18", quick=300000, thorough=5000000, build="default")],
 }
 
 RULES = {
